@@ -14,4 +14,12 @@ let () =
         let m = z_of_string d in
         let spec = if ZA.sign (za_of_z m) >= 0 && ZA.leq (za_of_z m) (za_of_z max_amount) then Some (canon m) else None in
         Printf.printf "%s\t%s\t%s\t%s\n" k d (show_s (format_amount m)) (show_s spec)
+    | "D" :: l :: _ ->
+        (* the API layer: every output formatted, the call refused when one of them is out of range *)
+        let ms = List.map z_of_string (String.split_on_char ',' l) in
+        let all f = let rs = List.map f ms in
+          if List.exists (fun r -> r = None) rs then "err"
+          else "ok " ^ String.concat "," (List.map (function Some s -> hex (string_of_zlist s) | None -> "") rs) in
+        let spec m = if ZA.sign (za_of_z m) >= 0 && ZA.leq (za_of_z m) (za_of_z max_amount) then Some (canon m) else None in
+        Printf.printf "D\t%s\t%s\t%s\n" l (all format_amount) (all spec)
     | _ -> ())
